@@ -80,7 +80,16 @@ Inductive kind :=
 (* one iteration of parafac on data (Model/Errors.v:parafac_iteration_error): factors before the iteration, the factors after it as the
    answer tape of the solve oracle (each updated mode is solved once per sweep), the updated modes in order, the value reported for it.
    The model computes every MTTKRP of the sweep itself and feeds the last one to error_calc_model. *)
-| KSweep (X : tensor F) (R : nat) (w : option (list F)) (fs_before fs_after : list (tensor F)) (ms : list nat) (rep : F).
+| KSweep (X : tensor F) (R : nat) (w : option (list F)) (fs_before fs_after : list (tensor F)) (ms : list nat) (rep : F)
+(* round 7: one iteration on data of constrained_parafac (variant 1: MTTKRP without weights, weights on the column sums) and of
+   non_negative_parafac_hals without normalisation (variant 2: MTTKRP paired with the last UPDATED mode); tape = factors after the iteration *)
+| KSweepV (variant : nat) (X : tensor F) (R : nat) (w : option (list F)) (fs_before fs_after : list (tensor F)) (ms : list nat) (rep : F)
+(* round 7: one iteration of the parafac loop on data with weights / line search (Model/Errors.v:fl_iteration): state and snapshot before,
+   factors after the sweep (tape of the solve oracle), the printed jump and decision; the state the value belongs to and the value.
+   tape = true: the candidate of the line search is the observed state (w2, fs2) - the verdict cases: a different extrapolation rule is not
+   C06's business; tape = false: the candidate is the transcribed extrapolation ls_extrapolate with the printed jump (advisory cases) *)
+| KIter (X : tensor F) (R : nat) (card : option nat) (w0 : option (list F)) (fs0 : list (tensor F)) (snw : option (list F)) (snfs : list (tensor F))
+        (fs1 : list (tensor F)) (ms : list nat) (ls : bool) (it : nat) (tape : bool) (jump : F) (acc : bool) (w2 : option (list F)) (fs2 : list (tensor F)) (rep : F).
 
 (* canonical form of an event list, applied to BOTH sides: what matters for "which iterate does an error belong to" is the order of
    the block updates, the kind and position of the error computations and the callbacks.  A normalisation is kept only where it
@@ -184,6 +193,23 @@ Definition agree_kind (k : kind) : bool :=
       forallb (fun k => nat_list_eqb (shape (nth k (fst res) (mk [] []))) (shape (nth k fs1 (mk [] []))) &&
                         q_list_eqb (map toQ (data (nth k (fst res) (mk [] [])))) (map toQ (data (nth k fs1 (mk [] []))))) (seq 0 (length fs1))
       && rel_close (parafac_iteration_error Op solve X R w None ms fs0) rep
+  | KSweepV variant X R w fs0 fs1 ms rep =>
+      let solve := fun (m : nat) (_ : tensor F) (_ : list (tensor F)) => nth m fs1 (mk [] []) in
+      let wm := if Nat.eqb variant 1%nat then None else w in
+      let res := data_sweep Op solve X R wm ms fs0 None in
+      forallb (fun k => nat_list_eqb (shape (nth k (fst res) (mk [] []))) (shape (nth k fs1 (mk [] []))) &&
+                        q_list_eqb (map toQ (data (nth k (fst res) (mk [] [])))) (map toQ (data (nth k fs1 (mk [] []))))) (seq 0 (length fs1))
+      && rel_close (if Nat.eqb variant 1%nat then constrained_iteration_error Op solve X R w ms fs0 else hals_iteration_error Op solve X R w ms fs0) rep
+  | KIter X R card w0 fs0 snw snfs fs1 ms ls it tape jump acc w2 fs2 rep =>
+      let orc := @mkFL F (fun _ m _ _ => nth m fs1 (mk [] [])) (fun _ sn st => if tape then (w2, fs2) else ls_extrapolate Op jump sn st) (fun _ _ _ => acc)
+                         (fun st => st) (fun _ _ => false) in
+      let r := fl_iteration Op orc X R card ms ls it (w0, fs0) (snw, snfs) [] in
+      let st2 := fst (fst r) in
+      rel_close (snd r) rep
+      && Nat.eqb (length (snd st2)) (length fs2)
+      && q_list_close atol rtol (map (fun r0 => toQ (wfun Op (fst st2) r0)) (seq 0 R)) (map (fun r0 => toQ (wfun Op w2 r0)) (seq 0 R))
+      && forallb (fun k => nat_list_eqb (shape (nth k (snd st2) (mk [] []))) (shape (nth k fs2 (mk [] []))) &&
+                           q_list_close atol rtol (map toQ (data (nth k (snd st2) (mk [] [])))) (map toQ (data (nth k fs2 (mk [] []))))) (seq 0 (length fs2))
   | KHooiHyp X G fs =>
       let s := shape X in let rs := shape G in let us := matsT Op fs in
       Nat.eqb (length fs) (length s) && Nat.eqb (length rs) (length s) &&
